@@ -348,6 +348,10 @@ func (fc *FnCtx) concat(st *State, a, b Val) Val {
 		return a
 	}
 	// a one-byte literal on the right: same term as a builder's WriteByte/WriteRune
+	if strings.HasPrefix(b.T, "(appendbyte emptystr ") && strings.HasSuffix(b.T, ")") {
+		// x + byteStr(c)  ==  appendbyte(x, c)
+		return Val{T: "(appendbyte " + a.T + " " + b.T[len("(appendbyte emptystr "):len(b.T)-1] + ")", S: SStr}
+	}
 	if strings.HasPrefix(b.T, "lit_") && len(b.T) == 6 {
 		if bs := litBytes(b.T); len(bs) == 1 {
 			return Val{T: fmt.Sprintf("(appendbyte %s %d)", a.T, bs[0]), S: SStr}
